@@ -35,6 +35,27 @@ FAULT_WHAT = {
 FILL = {"zero": "malloc_fill_byte=0:max_malloc_fill_size=100000000", "be": "malloc_fill_byte=190:max_malloc_fill_size=100000000"}
 
 
+def _sh(cmd, input=None, env=None, timeout=600, as_gb=None, cpu_s=None):
+    """subprocess with resource limits: RLIMIT_AS for the model driver (an ASan binary cannot take it), RLIMIT_CPU for
+    both, so that a runaway case ends its own process instead of the machine's memory."""
+    import resource
+    import subprocess
+
+    def lim():
+        if as_gb:
+            resource.setrlimit(resource.RLIMIT_AS, (int(as_gb * 2 ** 30), int(as_gb * 2 ** 30)))
+        if cpu_s:
+            resource.setrlimit(resource.RLIMIT_CPU, (cpu_s, cpu_s + 5))
+    try:
+        p = subprocess.run(cmd, input=input, env=env, timeout=timeout, stdout=subprocess.PIPE, stderr=subprocess.PIPE, preexec_fn=lim)
+        return p.returncode, p.stdout, p.stderr
+    except subprocess.TimeoutExpired as e:
+        return 124, e.stdout or b"", (e.stderr or b"") + b"\nTIMEOUT"
+
+
+RESOURCE_RCS = (124, -24, -9)     # wall timeout, SIGXCPU, SIGKILL (rlimit hard / OOM)
+
+
 def hx(desc):
     return desc.encode("latin1").hex()
 
@@ -78,8 +99,16 @@ def run_model(drv, cases, fixed=False):
     shard = 64
 
     def one(lo):
-        inp = "".join("%s %s\n" % (i, hx(d)) for i, d in cases[lo:lo + shard])
-        rc, out, err = C.sh([drv] + (["--fixed"] if fixed else []), input=inp.encode(), timeout=900)
+        part = cases[lo:lo + shard]
+        inp = "".join("%s %s\n" % (i, hx(d)) for i, d in part)
+        rc, out, err = _sh([drv] + (["--fixed"] if fixed else []), input=inp.encode(), timeout=900, as_gb=4, cpu_s=300)
+        if rc != 0:
+            # find the offending case(s): one process per case; a case that exhausts the limits alone is skipped
+            outs = []
+            for i, d in part:
+                rc1, o1, e1 = _sh([drv] + (["--fixed"] if fixed else []), input=("%s %s\n" % (i, hx(d))).encode(), timeout=300, as_gb=4, cpu_s=120)
+                outs.append(o1.decode(errors="replace") if rc1 == 0 else "CASE %s\nset skipped-resource-limit\n" % i)
+            return 0, "".join(outs), ""
         return rc, out.decode(errors="replace"), err.decode(errors="replace")
 
     with cf.ThreadPoolExecutor(max_workers=C.NCPU) as ex:
@@ -106,7 +135,7 @@ def crash_sig(err):
     return "exit"
 
 
-def run_c(exe, items, fill=None, shard=48, args=()):
+def run_c(exe, items, fill=None, shard=48, args=(), long_limit=None):
     """items: list of (id, mode, desc).  A crash loses only the case being run: the rest of the shard is re-run."""
     env = C.run_env()
     if fill:
@@ -118,7 +147,7 @@ def run_c(exe, items, fill=None, shard=48, args=()):
         out_all = {}
         while part:
             inp = "".join("%s %s %s\n" % (i, m, hx(d)) for i, m, d in part)
-            rc, out, err = C.sh([exe] + list(args), input=inp.encode(), env=env, timeout=600)
+            rc, out, err = _sh([exe] + list(args), input=inp.encode(), env=env, timeout=long_limit or 600, cpu_s=long_limit or 240)
             r = parse_out(out.decode(errors="replace"))
             out_all.update(r)
             if rc == 0:
@@ -134,7 +163,10 @@ def run_c(exe, items, fill=None, shard=48, args=()):
                 break
             i = str(part[bad][0])
             out_all.setdefault(i, {"set": None, "info": None, "loaded": False, "objs": [], "L": [], "rt": [], "end": False, "other": []})
-            out_all[i]["crash"] = (rc, err.decode(errors="replace")[-3500:])
+            if rc in RESOURCE_RCS:
+                out_all[i]["resource"] = rc        # CPU / wall limit: re-run alone with a long limit before counting
+            else:
+                out_all[i]["crash"] = (rc, err.decode(errors="replace")[-3500:])
             part = part[bad + 1:]
         return out_all
 
@@ -144,6 +176,15 @@ def run_c(exe, items, fill=None, shard=48, args=()):
             res.update(r)
             if errs:
                 res.setdefault("__errors__", []).extend(errs)
+    if long_limit is None:
+        # cases that hit a limit while the machine was shared: once more, alone, one at a time, with a long limit
+        again = [(i, m, d) for i, m, d in items if "resource" in res.get(str(i), {})]
+        for it in again[:20]:
+            r = run_c(exe, [it], fill=fill, shard=1, args=args, long_limit=1200)
+            r.pop("__errors__", None)
+            res.update(r)
+            if "resource" in res.get(str(it[0]), {}):
+                res[str(it[0])]["timeout"] = True
     return res
 
 
@@ -205,6 +246,9 @@ def judge(run, cases, model, cres, exe, drv, limit):
         if m is None or m["set"] is None:
             run.violation("model-no-answer", "model driver gave no answer", replay_text(desc), no_input=True)
             continue
+        if m["set"] == "skipped-resource-limit":
+            run.bump("model-skipped:resource-limit")
+            continue
         nontriv = m["set"] == "rc=0"
         cls = kind + (":accepted" if nontriv else ":fault" if m["set"].startswith("fault") else ":rejected")
         run.count("%s|%s|%s" % (desc, m["set"], len(m["objs"])), nontrivial=nontriv,
@@ -238,6 +282,12 @@ def judge(run, cases, model, cres, exe, drv, limit):
             continue
         if c is None:
             run.violation("not-run", "case did not run on the implementation", replay_text(desc), no_input=True)
+            continue
+        if "resource" in c:
+            if c.get("timeout"):
+                run.violation("timeout", "the implementation does not finish within 1200 s CPU, alone, on %r" % desc[:80], replay_text(desc))
+            else:
+                run.bump("skipped:resource-limit-not-rerun")
             continue
         if "crash" in c:
             rc, err = c["crash"]
@@ -362,7 +412,7 @@ def spec_implicit_numa(run, cases, cres):
     local to all PUs."""
     for idx, (kind, d) in enumerate(cases):
         c = cres.get(str(idx))
-        if not c or not c.get("loaded") or "[" in d or re.search(r"(?i)(^|[\s)])n[uo]", d) or re.search(r"(^|\s)[0-9+-]", d) or not all(32 <= ord(ch) < 127 or ch == "\n" for ch in d):
+        if not c or not c.get("loaded") or "[" in d or re.search(r"(?i)n[uo]", d) or re.search(r"(^|\s)[0-9+-]", d) or not all(32 <= ord(ch) < 127 or ch == "\n" for ch in d):
             continue
         numa = [l.split() for l in c["objs"] if l.startswith("M ")]
         pus = sorted(int(l.split()[2]) for l in c["objs"] if l.startswith("O 4 "))
@@ -454,15 +504,20 @@ def wf_pass(run, cases, model, items):
     sel = []
     for idx, mode, d in items:
         m = model.get(str(idx))
-        if mode != "l" or not m or not m["info"] or int(m["info"]["sum"]) > (250 if run.tier == "quick" else 1500):
+        if mode != "l" or not m or not m["info"] or int(m["info"]["sum"]) > (250 if run.tier == "quick" else 400):
             continue
         if any(ch in d for ch in "\n\r") or d != d.strip() or not d:
             continue
         sel.append((idx, d))
     # corpus/handmade/boundary cases come first in the case list; the verified checker is quadratic in the dump size
-    sel = sel[:120] if run.tier == "quick" else sel[:3000]
+    sel = sel[:120] if run.tier == "quick" else sel[:120] + run.rng.sample(sel[120:], min(680, max(0, len(sel) - 120)))
     wcases = [("synthetic:%r" % d, ["filter 10 0", "filter 11 0", "filter 12 0", "filter 15 0", "src synthetic " + d], "synthetic") for idx, d in sel]
-    res = K1.run_cases(run, wcases, exe1, drv1)
+    res = {}
+    for lo in range(0, len(wcases), 160):      # chunks: C01's runner keeps every dump line in memory
+        part = K1.run_cases(run, wcases[lo:lo + 160], exe1, drv1)
+        for k, r in part.items():
+            r["lines"] = None
+            res[lo + k] = r
     for k, (idx, d) in enumerate(sel):
         r = res.get(k)
         if r is None:
